@@ -25,6 +25,8 @@ RULES = {
     "C07-c": "PURE: documented-unchanged arguments are not mutated; no destructive operation on d",
     "C07-d": "PAIR: update_nested keeps the previous d[key] reachable under the new one",
     "C07-e": "merge, not overwrite: update_recursively replaces an existing dictionary item only by recursion",
+    "C07-f": "DEPTH: the level of intersection/difference is the same for every argument and key of one call (never rebound "
+             "in a loop) and every recursive call passes exactly level - 1",
 }
 FN = "lena.context.functions"
 ALGEBRA = ("intersection", "difference", "update_recursively", "update_nested")
@@ -292,8 +294,55 @@ def check_merge(ctx):
     ctx.instances_floor("C07-e", n, 1, "merge paths")
 
 
+def check_depth(ctx):
+    """intersection(*dicts, level) must equal the pairwise fold with the same level, difference(d1, d2, level) must treat
+    every key at the same depth: the depth counter may not change while the arguments / keys of one call are processed,
+    and a nested dictionary is compared one level deeper -- exactly level - 1."""
+    res = ctx.res
+    n = 0
+    for name in ("intersection", "difference"):
+        fn = ctx.tree.func(FN, name)
+        # the depth variable: the parameter `level`, or the local taken from kwargs.pop("level", ...)
+        lv = None
+        if "level" in A.func_params(fn):
+            lv = "level"
+        for st in A.walk_local(fn):
+            if isinstance(st, ast.Assign) and len(st.targets) == 1 and isinstance(st.targets[0], ast.Name) and isinstance(st.value, ast.Call) \
+                    and isinstance(st.value.func, ast.Attribute) and st.value.func.attr in ("pop", "get") and st.value.args \
+                    and A.const(st.value.args[0]) == "level":
+                lv = st.targets[0].id
+        if not ctx.require(lv is not None, "C07-f", fn, "%s: the depth variable was not found" % name):
+            continue
+        for st in A.walk_local(fn):
+            tg = []
+            if isinstance(st, (ast.Assign, ast.AugAssign, ast.For)):
+                tg = [t for t in A.assigned_targets(st) if lv in A.target_names(t)]
+            if not tg:
+                continue
+            loop = A.enclosing(st, (ast.For, ast.While))
+            ctx.check("C07-f", loop is None, st, "%s changes its depth counter inside a loop (`%s`): later arguments / keys of the same call "
+                      "are compared at another depth than earlier ones, so the result depends on the order and the number of the "
+                      "arguments (intersection(a, b, c) is no longer intersection(intersection(a, b), c))" % (name, A.short(st, 50)),
+                      detail="%s: the depth counter is bound outside loops" % name, construct="level-rebound-in-loop:%s" % name)
+        for c in A.walk_local(fn):
+            if isinstance(c, ast.Call) and res.call_canon(c) == FN + "." + name:
+                n += 1
+                arg = A.kwarg(c, "level")
+                if arg is None:
+                    formal = A.func_params(fn)
+                    if "level" in formal and len(c.args) > formal.index("level"):
+                        arg = c.args[formal.index("level")]
+                ok = arg is not None and isinstance(arg, ast.BinOp) and isinstance(arg.op, ast.Sub) and A.src(arg.left) == lv \
+                    and A.is_const(arg.right, 1)
+                ctx.check("C07-f", ok, c, "%s recurses with level `%s`, not `%s - 1`: nested dictionaries are compared at the wrong depth"
+                          % (name, A.src(arg) if arg is not None else "<default>", lv), detail="%s recurses with level - 1" % name,
+                          construct="level-arg:%s" % name)
+    ctx.instances_floor("C07-f", n, 2, "recursive calls of intersection/difference")
+
+
 def check(ctx):
     check_truthy(ctx)
+    check_depth(ctx)
     check_fresh(ctx)
     check_pure(ctx)
     check_update_nested(ctx)
@@ -301,6 +350,10 @@ def check(ctx):
 
 
 VARIANTS = [
+    M("intersection-level-per-argument", "lena/context/functions.py", "        to_delete = []\n        for key in res:\n            if key in d:\n                if d[key] != res[key]:\n                    if level == 1:\n                        to_delete.append(key)\n                    elif isinstance(res[key], dict) and isinstance(d[key], dict):\n                        res[key] = intersection(res[key], d[key], level=level-1)",
+      "        level -= 1\n        to_delete = []\n        for key in res:\n            if key in d:\n                if d[key] != res[key]:\n                    if level == 0:\n                        to_delete.append(key)\n                    elif isinstance(res[key], dict) and isinstance(d[key], dict):\n                        res[key] = intersection(res[key], d[key], level=level)", ["C07-f"]),
+    M("difference-level-kept", "lena/context/functions.py", "                res = difference(d1[key], d2[key], level-1)", "                res = difference(d1[key], d2[key], level)", ["C07-f"]),
+    M("intersection-level-dropped", "lena/context/functions.py", "                        res[key] = intersection(res[key], d[key], level=level-1)", "                        res[key] = intersection(res[key], d[key])", ["C07-f"]),
     V("mutant", "revert-fix-difference-truthy", None, None, None, ["C07-a"], edits=[
         ("lena/context/functions.py", "            if isinstance(d1[key], dict) and isinstance(d2[key], dict):\n                res = difference(d1[key], d2[key], level-1)",
          "            if True:\n                res = difference(d1[key], d2[key], level-1)", 0)]),
